@@ -56,6 +56,18 @@ fn run(loc: &Locator, input: &str, memo: bool) -> (u64, usize, String, String, u
                     if sp.end() > input.len() || sp.start() > sp.end() {
                         spans_ok = false;
                     }
+                    // a node's span is the hull of its leaves
+                    let (mut lo, mut hi) = (usize::MAX, 0usize);
+                    for d in node.descendants() {
+                        if matches!(d.syntax().trunk(), oal_model::grammar::SyntaxTrunk::Leaf(_)) {
+                            let l = d.span().unwrap();
+                            lo = lo.min(l.start());
+                            hi = hi.max(l.end());
+                        }
+                    }
+                    if lo != usize::MAX && (sp.start() != lo || sp.end() != hi) {
+                        spans_ok = false;
+                    }
                 }
             }
         }
